@@ -2,8 +2,8 @@
    Only statements here; each is closed by `exact` of a lemma from proofs/Script*Lemmas.v.
    The interpreter is model/Script.v (eval_script_state = EvalScript).  In every theorem the hash functions
    (sha256 ripemd160 sha1), the flags fl, the signature/locktime checker ck and the sigversion sv are arbitrary. *)
-From BV Require Import lib.Ints gen.Params_gen model.Script
-  proofs.ScriptNumLemmas proofs.ScriptLemmas proofs.ScriptInvLemmas proofs.ScriptOpLemmas.
+From BV Require Import lib.Ints gen.Params_gen model.Script model.ScriptVerify
+  proofs.ScriptNumLemmas proofs.ScriptLemmas proofs.ScriptInvLemmas proofs.ScriptOpLemmas proofs.ScriptCondLemmas proofs.ScriptMultisigLemmas.
 Local Open Scope Z_scope.
 
 (* ---- CScriptNum ---- *)
@@ -198,6 +198,48 @@ Proof.
   eapply op_operand_too_long; eauto.
 Qed.
 Print Assumptions C12_arithmetic_opcodes_spec.
+
+(* The ConditionStack of EvalScript (only a size and the position of the first false are stored) implements a stack of
+   booleans vf (top first) of which "empty" and "all true" are the only observables: IF/NOTIF push, ELSE toggles the
+   top, ENDIF pops.  (cond_rep vf st: the state's pair represents vf.) *)
+Theorem C12_condition_stack_is_a_stack_of_booleans : forall (vf : list bool) (st : state) (b : bool), lenz vf + 1 < NO_FALSE -> cond_rep vf st ->
+  (cond_all_true st = forallb (fun x => x) vf /\ cond_empty st = negb (nonempty_list vf)) /\ 
+  cond_rep (b :: vf) (cond_push st b) /\ 
+  (forall st2, cond_rep (b :: vf) st2 -> cond_rep vf (cond_pop st2) /\ cond_rep (negb b :: vf) (cond_toggle st2)).
+Proof.
+  intros vf st b Hl Hr. split; [destruct (cond_rep_observables vf st ltac:(lia) Hr) as [H1 H2]; split; [exact H1|rewrite H2; destruct vf; reflexivity]|]. split; [apply cond_rep_push; assumption|].
+  intros st2 H2. split; [eapply cond_rep_pop; eauto|apply cond_rep_toggle; assumption].
+Qed.
+Print Assumptions C12_condition_stack_is_a_stack_of_booleans.
+
+(* VerifyScript rules (model/ScriptVerify.v): BIP16 P2SH and SIGPUSHONLY need a push-only scriptSig; CLEANSTACK on a plain output
+   leaves exactly one, true, element; a native witness program needs an empty scriptSig. *)
+Theorem C12_verifyscript_rules : forall sha256 ripemd160 sha1 fl ck scriptSig scriptPubKey witness,
+  verify_script sha256 ripemd160 sha1 fl ck scriptSig scriptPubKey witness = Some (Ok tt) ->
+  (has fl SCR_FLAG_P2SH = true -> is_pay_to_script_hash scriptPubKey = true -> is_push_only scriptSig = true) /\
+  (has fl SCR_FLAG_SIGPUSHONLY = true -> is_push_only scriptSig = true) /\
+  (has fl SCR_FLAG_CLEANSTACK = true -> witness_program scriptPubKey = None -> is_pay_to_script_hash scriptPubKey = false ->
+     exists s1 top, eval sha256 ripemd160 sha1 fl ck SV_BASE scriptSig [] = Ok s1 /\
+                    eval sha256 ripemd160 sha1 fl ck SV_BASE scriptPubKey s1 = Ok [top] /\ cast_to_bool top = true) /\
+  (forall ver prog, has fl SCR_FLAG_WITNESS = true -> witness_program scriptPubKey = Some (ver, prog) -> scriptSig = []).
+Proof.
+  intros sha256 ripemd160 sha1 fl ck ssig spk wit H. repeat split; intros.
+  - eapply p2sh_requires_pushonly; eauto.
+  - eapply sigpushonly_requires_pushonly; eauto.
+  - eapply cleanstack_one_element; eauto.
+  - eapply witness_requires_empty_scriptsig; eauto.
+Qed.
+Print Assumptions C12_verifyscript_rules.
+
+(* OP_CHECKMULTISIG's matching loop (signatures and keys listed top of stack first, the order in which the loop consumes
+   them): when the encoding checks pass, it reports true exactly when all signatures can be matched, in order, to
+   distinct keys in order, each pair accepted by the checker. *)
+Theorem C12_checkmultisig_matching_spec : forall fl ck sv code keys sigs,
+  (forall s, In s sigs -> check_signature_encoding fl s = Ok tt) ->
+  (forall k, In k keys -> check_pubkey_encoding fl sv k = Ok tt) ->
+  exists b, multisig_loop fl ck sv code keys sigs = Ok b /\ (b = true <-> matches ck sv code keys sigs).
+Proof. intros fl ck sv code keys sigs Hs Hk. apply multisig_loop_spec. split; assumption. Qed.
+Print Assumptions C12_checkmultisig_matching_spec.
 
 (* FindAndDelete leaves the script unchanged when the pattern does not occur at an instruction boundary *)
 Theorem C12_find_and_delete_nothing_found : forall script b r, find_and_delete script b = (r, 0) -> r = script.
